@@ -122,6 +122,33 @@ CLAIMED["C08"] = (
     "drift only.",
     "5/C08", "")
 
+CLAIMED["C10"] = (
+    "TLA+ transcription of the condition selection (MCSSelect.tla) and routing model (Plumbing.tla) checked "
+    "exhaustively by TLC; every TLC-enumerated table replayed into the real get_largest_condition; real MCSSearch.find "
+    "results validated by TLC (MCSSelect_Trace.tla)",
+    "TLC checks on every table of 3 conditions x up to 2 reactions (totals / first-pattern sizes 0..2, unequal list "
+    "lengths) that the retained entry has the largest total, order is kept, ids agree, a unique best result is never "
+    "dropped (tie-handling mutant must fail), and the attribution invariant of the id routing. Every table of the "
+    "replay bound is passed to the real function (SMARTS of the required sizes) and compared by TLC with the model "
+    "(drift) and the clauses. Real MCSSearch.find runs on mixed batches (solved rows interleaved, reactions with no "
+    "match) are judged with oracle facts: the molecule list equals the carbon-richer side as a multiset, every "
+    "pattern is contained in its molecule (HasSubstructMatch), one pattern per molecule, own id, retained total = "
+    "maximum over the three conditions (separate ensemble_mcs call).",
+    "5/C10", "")
+CLAIMED["C11"] = (
+    "TLA+ fault/schedule model (Faults.tla) with zombie-write interleavings checked exhaustively by TLC; fault plans "
+    "and zombie schedules injected into the real pipeline through guarded hooks; runs validated against the "
+    "fault-free run by TLC (Fault_Trace.tla)",
+    "TLC explores every assignment of {ok, exception, timeout, timeout+late write} to the (reaction, condition) "
+    "search jobs and {ok, exception, timeout} to the analysis jobs of a 2x2 model, with the late write of a timed-out "
+    "thread enabled at every later step (2.4M states), and checks: no row lost, every row solved or declined with a "
+    "reason, unaffected rows as without faults (the shifting-totals mutant must fail). The real pipeline is run on "
+    "two mixed batches (1 and 4 workers) under every single fault, every subset of one reaction's conditions, random "
+    "multi-job plans, all-jobs-fail, and (in-process) zombie schedules in which the timed-out search thread is "
+    "parked on a gate and released at a chosen point (before selection, after selection, after the search stage, "
+    "after imputation ...); TLC checks each run row by row against the fault-free reference.",
+    "5/C11", "")
+
 PENDING_REASON = "check not built yet in this round (planned, see DESIGN.md section 5); not claimed until it passes on the unchanged tree"
 
 
